@@ -170,6 +170,7 @@ def obligations(tier):
         v("stack", "arm::PushByte", "pushes exactly the literal (+1)", T + "PushByte"),
         v("stack", "arm::PushFloat", "pushes one value (+1), nothing else moves", T + "PushFloat"),
         v("stack", "arm::ConstructVariant", "effect 1 - args; the new value has exactly the top `args` values as fields, in stack (= source) order; values below untouched", T + "ConstructVariant"),
+        v("stack", "arm::ConstructRecord", "effect 1 - args; the record's field values are exactly the top `args` values in order; the empty record is the unit tag", T + "ConstructRecord"),
         v("stack", "arm::ConstructArray", "effect 1 - args; the array's elements are exactly the top `args` values in order", T + "ConstructArray"),
         v("stack", "arm::MakeClosure", "run-time effect 1 - upvars; the closure captures exactly the top `upvars` values in order", T + "MakeClosure"),
         v("stack", "ExecuteContext::call_function_with_upvars", "the call protocol: exact application enters the callee on the stack as it is; partial application replaces function+arguments by ONE value holding exactly these arguments in order; over-application packs the LAST (args - required) arguments in order into one value parked directly below the function and enters the callee with the excess flag; enclosing frames untouched", "vm/src/thread.rs::ExecuteContext::call_function_with_upvars"),
